@@ -190,7 +190,7 @@ def make_source(src):
 def draw_opts(r, n, has_len, simple_ok=True):
     o = {}
     if chance(r, 0.4):
-        o["desc"] = pick(r, ["", "x", "load 100%", "a: b"])
+        o["desc"] = pick(r, ["", "x", "load 100%", "a: b", "50% sample", "mag %s", "%d{}"])
     if chance(r, 0.5):
         tk = wpick(r, [("len", 3), ("more", 1), ("less", 1)])
         if tk == "len":
@@ -375,13 +375,25 @@ def execute(script, run, env):
     return execute_wrap(script, run, env)
 
 
-def _judge_isplit(run, algorithm, num, nch, feats):
+def _judge_isplit(run, algorithm, num, nch, feats, again=True):
     run.checks += 1
     try:
         subs = algorithm.isplit(num, nch)
     except Exception as e:
         run.fail("prog.isplit", feats, "isplit(%d,%d) raised %r" % (num, nch, e))
         return
+    if again:
+        # the caller owns what it got: it shifts its ranges in place (say, to a global offset) and asks again
+        _judge_isplit(run, algorithm, num, nch, feats, again=False)
+        if run.failures:
+            return
+        try:
+            subs["start"] += 1000
+            subs["end"] += 1000
+        except Exception:
+            pass
+        subs = algorithm.isplit(num, nch)
+        feats = dict(feats, history="after the caller edited an earlier result in place")
     msg = ""
     if subs.size != nch:
         msg = "returned %d ranges" % subs.size
@@ -394,7 +406,7 @@ def _judge_isplit(run, algorithm, num, nch, feats):
         elif sizes.max() - sizes.min() > 1 or np.any(np.diff(sizes) > 0):
             msg = "sizes %r do not differ by at most one, larger first" % (sizes[:20].tolist(),)
     if msg:
-        run.fail("prog.isplit", feats, "isplit(%d,%d): %s" % (num, nch, msg))
+        run.fail("prog.isplit", feats, "isplit(%d,%d)%s: %s" % (num, nch, " " + feats["history"] if "history" in feats else "", msg))
 
 
 def _keys(op):
